@@ -61,11 +61,17 @@ def check(case):
             os.chdir(work)
             rel = {"rel": "f.blm", "sub": os.path.join("sub", "f.blm"), "abs": os.path.join(work, "f.blm")}[case["where"]]
             path = os.path.abspath(rel)
+            if len(case["ops"]) % 3 == 0:
+                with open(path, "wb") as fh:  # left over from an earlier, bigger filter
+                    fh.write(b"\xff" * 4099)
             try:
                 obj = BloomFilterOnDisk(rel, est_elements=case["est"], false_positive_rate=case["fpr"], hash_function=fn)
             except Exception:  # noqa: BLE001 - rejected sizing
                 return None
             mem = BloomFilter(est_elements=case["est"], false_positive_rate=case["fpr"], hash_function=fn)
+            with open(path, "rb") as fh:
+                if fh.read() != bytes(mem):
+                    return "the file of a freshly created on-disk filter is not the export of an empty filter"
             done = []
             for step, op in enumerate(case["ops"]):
                 if op[0] == "add":
